@@ -190,6 +190,109 @@ func c15ReporterJobs(tier string) []*SeqJob {
 		}
 	}
 	var jobs []*SeqJob
+	// many refused messages in a row: after each oversized (abandoned) message a small one must arrive, up to
+	// a number of rounds well above any nesting limit or stack a protocol object might keep between messages.
+	// Run under the controlled scheduler, so that a panic in the reporter's own goroutine is a violation with a
+	// history instead of a dead worker.
+	for _, kind := range []string{"compact", "binary"} {
+		kind := kind
+		rounds := tierInt(tier, 48, 140)
+		runLong := func(limit int32, hugeName bool) (string, string, int) {
+			s := newFastSink()
+			defer s.close()
+			steps := 0
+			var rcl, rdet string
+			caseHorizon = 20000000 // one long default schedule
+			defer func() { caseHorizon = 0 }()
+			ccl, cdet := controlledCase(0, func() {
+				r, err := m3.NewReporter(m3.Options{HostPorts: []string{s.addr}, Service: "svc", Env: "test", Protocol: m3Proto(kind), MaxQueueSize: 256, MaxPacketSizeBytes: limit})
+				if err != nil {
+					rcl, rdet = "new-reporter", err.Error()
+					return
+				}
+				small := r.AllocateCounter("u.small", map[string]string{"k": "v"})
+				var huge tally.CachedCount
+				var filler []tally.CachedCount
+				if hugeName {
+					huge = r.AllocateCounter("u.huge."+strings.Repeat("x", 70000), nil)
+				} else {
+					// a limit above the transport's maximum: a full batch is refused by the transport
+					for i := 0; i < 40; i++ {
+						filler = append(filler, r.AllocateCounter(fmt.Sprintf("u.fill%02d.", i)+strings.Repeat("y", 1700), nil))
+					}
+				}
+				for i := 0; i < rounds; i++ {
+					steps += 2
+					if hugeName {
+						huge.ReportCount(1)
+					} else {
+						for _, f := range filler {
+							f.ReportCount(1)
+						}
+					}
+					r.Flush()
+					small.ReportCount(int64(1000 + i))
+					r.Flush()
+				}
+				if err := r.Close(); err != nil {
+					rcl, rdet = "close-error", err.Error()
+				}
+			})
+			if ccl != "" {
+				return ccl, fmt.Sprintf("[%s, limit %d] %d rounds of a refused message followed by a small one: %s", kind, limit, rounds, cdet), steps
+			}
+			if rcl != "" {
+				return rcl, rdet, steps
+			}
+			seen := map[int64]int{}
+			for i, dg := range s.readAvailable(nil) {
+				msg, err := decodeMessage(kind, dg)
+				if err != nil || msg.Left != 0 {
+					return "corrupt-datagram-after-failed-message", fmt.Sprintf("[%s, limit %d] datagram %d (%d bytes) is not one complete message: %v", kind, limit, i, len(dg), err), steps
+				}
+				for _, m := range msg.Batch.Metrics {
+					if m.Name == "u.small" {
+						seen[m.Value.Count]++
+					}
+				}
+			}
+			for i := 0; i < rounds; i++ {
+				if seen[int64(1000+i)] != 1 {
+					return "batch-lost-after-failed-message", fmt.Sprintf("[%s, limit %d] the small batch after refused message number %d arrived %d times (earlier ones arrived)", kind, limit, i+1, seen[int64(1000+i)]), steps
+				}
+			}
+			return "", "", steps
+		}
+		jl := &SeqJob{Property: "C15", Name: fmt.Sprintf("reporter-survives-many-refused-messages-%s", kind), Controlled: true}
+		jl.Run = func(ctx *SeqCtx) {
+			for ci, c := range []struct {
+				limit int32
+				huge  bool
+			}{{32768, true}, {65507, false}} {
+				c := c
+				steps := 0
+				cl, det := guard(func() (string, string) { a, b, s := runLong(c.limit, c.huge); steps = s; return a, b })
+				ops := []string{fmt.Sprint(ci)}
+				ctx.Case(steps, true, func() string { return fmt.Sprintf("%s limit %d rounds %d", kind, c.limit, rounds) })
+				ctx.State(fmt.Sprint(kind, ci))
+				if cl != "" {
+					ctx.Fail(cl, det, ops)
+					if ctx.viol != nil {
+						return
+					}
+				}
+			}
+			ctx.Alphabet(fmt.Sprintf("every number of consecutive refused messages from 1 to %d, each followed by a small batch", rounds), "a metric larger than a datagram; a packet limit above the transport's maximum")
+			ctx.DepthDone(rounds)
+		}
+		jl.Replay = func(ops []string) (string, string) {
+			if ops[0] == "0" {
+				return guard(func() (string, string) { a, b, _ := runLong(32768, true); return a, b })
+			}
+			return guard(func() (string, string) { a, b, _ := runLong(65507, false); return a, b })
+		}
+		jobs = append(jobs, jl)
+	}
 	for _, kind := range []string{"compact", "binary"} {
 		kind := kind
 		jd := &SeqJob{Property: "C15", Name: fmt.Sprintf("reporter-message-faults-%s-dead-first-destination", kind), Shards: 4}
